@@ -250,6 +250,13 @@ simulated_camera_streamer_thread(struct SimulatedCamera* self)
 
         const float exposure_time_ms =
           self->properties.exposure_time_us * 1e-3f;
+        const uint8_t binning = self->properties.binning;
+
+        // Take the render buffer out of the shared state while it is being
+        // filled: simcam_set() may be called while the camera is live and
+        // reallocates the buffers it finds there.
+        void* const render = self->im.render_data;
+        self->im.render_data = 0;
         ECHO(lock_release(&self->im.lock));
 
         clock_tic(&self->streamer.throttle);
@@ -257,13 +264,11 @@ simulated_camera_streamer_thread(struct SimulatedCamera* self)
         // generate the image
         switch (self->kind) {
             case BasicDevice_Camera_Random:
-                im_fill_rand(&full, self->im.render_data);
+                im_fill_rand(&full, render);
                 break;
             case BasicDevice_Camera_Sin:
-                ECHO(im_fill_pattern(&full,
-                                     (float)origin[0],
-                                     (float)origin[1],
-                                     self->im.render_data));
+                ECHO(im_fill_pattern(
+                  &full, (float)origin[0], (float)origin[1], render));
                 break;
             case BasicDevice_Camera_Empty:
                 break; // do nothing
@@ -274,12 +279,12 @@ simulated_camera_streamer_thread(struct SimulatedCamera* self)
         }
 
         // apply binning if applicable
-        if (self->properties.binning > 1) {
+        if (binning > 1) {
             int w = full.dims.width;
             int h = full.dims.height;
-            int b = self->properties.binning >> 1;
+            int b = binning >> 1;
             while (b) {
-                ECHO(bin2(self->im.render_data, w, h));
+                ECHO(bin2(render, w, h));
                 b >>= 1;
                 w >>= 1;
                 h >>= 1;
@@ -294,22 +299,26 @@ simulated_camera_streamer_thread(struct SimulatedCamera* self)
             clock_sleep_ms(&self->streamer.throttle, exposure_time_ms - toc);
         }
 
-        if (self->im.frame_wanted) {
-            ECHO(lock_acquire(&self->im.lock));
-
-            {
+        ECHO(lock_acquire(&self->im.lock));
+        if (self->im.render_data) {
+            // The camera was configured again meanwhile and has new buffers:
+            // this image no longer matches the settings.
+            free(render);
+        } else {
+            self->im.render_data = render;
+            if (self->im.frame_wanted) {
                 void* const tmp = self->im.frame_data;
                 self->im.frame_data = self->im.render_data;
                 self->im.render_data = tmp;
+
+                self->hardware_timestamp = clock_tic(0);
+                self->im.frame_id = frame_id;
+                self->im.frame_wanted = 0;
+
+                ECHO(condition_variable_notify_all(&self->im.frame_ready));
             }
-
-            self->hardware_timestamp = clock_tic(0);
-            self->im.frame_id = frame_id;
-            self->im.frame_wanted = 0;
-
-            ECHO(condition_variable_notify_all(&self->im.frame_ready));
-            ECHO(lock_release(&self->im.lock));
         }
+        ECHO(lock_release(&self->im.lock));
     }
 }
 
